@@ -18,7 +18,9 @@ def queue_rules(retry=3, streams=2, ring=3, extra=None):
         (r'ReaderGroup::get_max_diff', streams + 1),
         (r'new_internal', ring),
         (r'MultiQueue.* as std::ops::Drop>::drop', ring + 1),
-        (r'point_impl', 3),
+        (r'point_impl', 5),
+        (r'swap_nonoverlapping|swap_chunk|swap_simple|ptr::swap', 12),
+        (r'drop_glue::<\[', 6),
         HARNESS_LOOPS,
     ]
 
@@ -39,6 +41,8 @@ ASSUMPTIONS = [
 HARNESSES = {}
 
 E2_ONLY = set()
+# properties whose check also discharges the MIR->SMT lemmas that serve them (tools/e2.py)
+E2_PROPS = {"C01", "C03", "C06", "C08", "C09", "C14"}
 
 
 def H(name, mod, primary, props, tier, what, bounds="", **cfg):
@@ -164,6 +168,12 @@ H("c04_bc_view_inview", T, "C04", ["C04", "C05", "C03"], "quick",
 H("c04_mp_view_inview", T, "C05", ["C04", "C05", "C03"], "quick",
   "mpmc in-place viewer (value dropped in place after the view), instrumented payload, producer wraps the ring inside the closure",
   "N=2, injection only inside the view closure, up to 3 sends there, teardown checked")
+H("c06_bc_sibdrop_inclone", T, "C06", ["C06", "C12", "C04", "C05"], "quick",
+  "broadcast shared stream, instrumented payload: consumer A is in the middle of clone() when its sibling handle is dropped (consumers 2->1) and the producer sends",
+  "N=2, prefix <=2 sends <=1 recv, injection only inside Clone, up to 3 ops at that site, teardown checked")
+H("c06_bc_sibdrop_all", T, "C12", ["C06", "C12", "C01", "C03"], "quick",
+  "broadcast shared stream: consumer A's try_recv preempted everywhere by the drop of its sibling handle and a send",
+  "N=2, 1 op per actor, depth 1, budget 2")
 H("c04_bc_shared_all", T, "C04", ["C04", "C05", "C01", "C06"], "thorough",
   "broadcast shared stream, instrumented payload, all preemption sites, teardown checked",
   "N=2, 1 op per actor, depth 1, budget 2")
@@ -207,6 +217,15 @@ H("c11_bc_unsub_last_o1", L, "C11", ["C11", "C03"], "quick",
   "broadcast: unsubscribe() of the last handle of a stream (must report true), preempted everywhere", "N=2, budget 2", rules=ADDRULES)
 H("c11_bc_unsub_nonlast_o1", L, "C11", ["C11", "C01", "C03", "C06"], "quick",
   "broadcast: unsubscribe() of a non-last handle (must report false; the stream keeps values and backpressure)", "N=2, budget 2", rules=ADDRULES)
+H("c11_bc_droprace_o1", L, "C11", ["C11", "C03", "C06", "C16"], "quick",
+  "broadcast three streams: drop of stream 0's last handle preempted everywhere by the drop of stream 1's last handle (two list changes racing) and a send",
+  "N=2, budget 2", rules=ADDRULES)
+H("c11_bc_addrace_o1", L, "C11", ["C11", "C10", "C03", "C06"], "quick",
+  "broadcast: drop of stream 0's last handle preempted everywhere by add_stream on stream 1 and a send",
+  "N=2, budget 2", rules=ADDRULES)
+H("c11_bc_addrace_o2", L, "C10", ["C11", "C10", "C03", "C06"], "quick",
+  "broadcast: add_stream on stream 1 preempted everywhere by the drop of stream 0's last handle and a send",
+  "N=2, budget 2", rules=ADDRULES)
 H("c12_mp_senders_o0", L, "C12", ["C12", "C01", "C02", "C03", "C06"], "quick",
   "mpmc: senders 1->2->1: send in single-writer state, clone, send, while the clone sends and is dropped and the consumer receives",
   "N=2, prefix <=1/<=1, budget 2")
@@ -231,12 +250,28 @@ for n, w in (("c08_mp_blk00_send", "mpmc BlockingWait(0,0): blocked recv vs one 
              ("c08_bc_blk00_senddrop", "broadcast BlockingWait(0,0): blocked recv vs send + drop of the last sender"),
              ("c08_mp_blk00_drop", "mpmc BlockingWait(0,0): blocked recv vs drop of the last sender"),
              ("c08_bc_blk00_sibling", "broadcast BlockingWait(0,0): blocked recv, two sends, a sibling consumer that takes one value"),
+             ("c08_bc_blk00_sibling_n1", "broadcast N=1 BlockingWait(0,0): blocked recv; the producer laps the ring while a sibling consumer takes one value"),
+             ("c08_mp_blk00_sibling_n1", "mpmc N=1 BlockingWait(0,0): blocked recv; the producer laps the ring while a sibling consumer takes one value"),
+             ("c08_mp_busy_sibling_n1", "mpmc N=1 BusyWait: spinning recv; producer laps the ring, sibling takes one value"),
              ("c08_mp_blk11_send", "mpmc BlockingWait(1,1): blocked recv vs one send"),
              ("c08_bc_blk20_view", "broadcast BlockingWait(2,0): blocked recv_view vs one send"),
              ("c08_mp_busy_send", "mpmc BusyWait: spinning recv vs one send"),
              ("c08_mp_busy_drop", "mpmc BusyWait: spinning recv vs drop of the last sender"),
              ("c08_bc_yield11_senddrop", "broadcast YieldingWait(1,1): recv vs send + drop"),
              ("c08_mp_yield01_sibling", "mpmc YieldingWait(0,1): recv, two sends, sibling consumer")):
-    H(n, W, "C08", ["C08", "C07"], "quick" if n in ("c08_mp_blk00_send", "c08_bc_blk00_senddrop", "c08_mp_blk00_drop", "c08_mp_busy_send", "c08_bc_yield11_senddrop") else "thorough",
+    H(n, W, "C08", ["C08", "C07"], "quick" if n in ("c08_mp_blk00_send", "c08_bc_blk00_senddrop", "c08_mp_blk00_drop", "c08_mp_busy_send", "c08_bc_yield11_senddrop", "c08_bc_blk00_sibling_n1") else "thorough",
       w + "; sender/sibling operations run at every preemption point of the waiter and inside the condvar wait; stuck detector",
       "N=2, budget 3, up to 2 ops per site", rules=WRULES)
+
+# ---- real memory manager
+M = "scen_mem"
+FP = [(r'ToFree.*6delete', [r'ToFree.*3new.*7do_free'])]
+MEMRULES = queue_rules(retry=4, streams=3, ring=3, extra=[
+    (r'ReadCursor::add_stream', 4), (r'ReadCursor::remove_reader', 4),
+    (r'MemoryManagerInner.*try_freeing', 8), (r'MemoryManagerInner.* as std::ops::Drop>::drop', 30),
+    (r'do_free', 3), (r'swap_nonoverlapping|swap_simple|swap_chunk', 6),
+    (r'Vec.*clone|to_vec|retain|extend|spec_|Drain|drain|process_loop', 8)])
+for n, w in (("c17_teardown_mp", "mpmc"), ("c17_teardown_bc_stream", "broadcast with an added stream"), ("c17_teardown_bc_clone", "broadcast N=1 with cloned sender and receiver")):
+    H(n, M, "C17", ["C17", "C16", "C05"], "quick",
+      w + ": build, optionally queue a value, drop every handle in a solver-chosen order with the REAL memory manager; allocation counters must return to zero; CBMC pointer checks on",
+      "sequential; symbolic: queued value, senders-first, receiver order", rules=MEMRULES, fp_restrict=FP, builtin_oracle=True, unwind=6)
